@@ -146,4 +146,90 @@ theorem setMediaType_ast (a : QAst) (ha : a.Valid) (raising : Bool) (mt : Cps) (
     simp only [QAst.toMQ, QAst.withType, this, Option.getD_some]
     simp [tailItems]
 
+/-- items the loop of the setter passes over: comments, value objects, and the `only` / `not` keywords -/
+def passedItem : QItem → Bool
+  | .tok t => isSetterSkipWord t.val
+  | _ => true
+
+/-- exact effect of the loop on ANY sequence: everything before the first string item that is not `only` / `not`
+and everything after it is untouched; that item is replaced when it is an IDENT, otherwise `type and` goes in front -/
+theorem setTypeGo_spec (mt : Cps) : ∀ (l r : List QItem), setTypeGo mt l = some r →
+    ∃ pre t post, l = pre ++ QItem.tok t :: post ∧ (∀ i ∈ pre, passedItem i = true) ∧ isSetterSkipWord t.val = false ∧
+      r = pre ++ (if t.typ = .ident then [typeItem mt] else [typeItem mt, setterAndItem, QItem.tok t]) ++ post := by
+  intro l
+  induction l with
+  | nil => intro r h; simp [setTypeGo] at h
+  | cons x l ih =>
+    intro r h
+    have step : ∀ r', passedItem x = true → setTypeGo mt l = some r' → r = x :: r' →
+        ∃ pre t post, x :: l = pre ++ QItem.tok t :: post ∧ (∀ i ∈ pre, passedItem i = true) ∧
+          isSetterSkipWord t.val = false ∧
+          r = pre ++ (if t.typ = .ident then [typeItem mt] else [typeItem mt, setterAndItem, QItem.tok t]) ++ post := by
+      intro r' hx hg hr
+      obtain ⟨pre, t, post, h1, h2, h3, h4⟩ := ih r' hg
+      refine ⟨x :: pre, t, post, by rw [h1]; rfl, ?_, h3, by rw [hr, h4]; rfl⟩
+      intro i hi
+      simp only [List.mem_cons] at hi
+      rcases hi with rfl | hi
+      · exact hx
+      · exact h2 i hi
+    cases x with
+    | tok t =>
+      simp only [setTypeGo] at h
+      by_cases hs : isSetterSkipWord t.val = true
+      · simp only [hs, if_true] at h
+        cases hg : setTypeGo mt l with
+        | none => simp [hg] at h
+        | some r' =>
+          simp only [hg, Option.map_some, Option.some.injEq] at h
+          exact step r' hs hg h.symm
+      · have hs' : isSetterSkipWord t.val = false := by simpa using hs
+        simp only [hs', Bool.false_eq_true, if_false] at h
+        refine ⟨[], t, l, rfl, (fun i hi => nomatch hi), hs', ?_⟩
+        by_cases hi : t.typ = .ident
+        · simp only [hi, if_true, Option.some.injEq] at h; subst h; simp [hi]
+        · simp only [hi, if_false, Option.some.injEq] at h; subst h; simp [hi]
+    | comment t =>
+      simp only [setTypeGo] at h
+      cases hg : setTypeGo mt l with
+      | none => simp [hg] at h
+      | some r' =>
+        simp only [hg, Option.map_some, Option.some.injEq] at h
+        exact step r' rfl hg h.symm
+    | value k t =>
+      simp only [setTypeGo] at h
+      cases hg : setTypeGo mt l with
+      | none => simp [hg] at h
+      | some r' =>
+        simp only [hg, Option.map_some, Option.some.injEq] at h
+        exact step r' rfl hg h.symm
+
+theorem setTypeGo_none (mt : Cps) : ∀ (l : List QItem), setTypeGo mt l = none → ∀ i ∈ l, passedItem i = true := by
+  intro l
+  induction l with
+  | nil => intro _ i hi; cases hi
+  | cons x l ih =>
+    intro h i hi
+    have tail : setTypeGo mt l = none → passedItem x = true → passedItem i = true := by
+      intro hg hx
+      simp only [List.mem_cons] at hi
+      rcases hi with rfl | hi
+      · exact hx
+      · exact ih hg i hi
+    cases x with
+    | tok t =>
+      simp only [setTypeGo] at h
+      by_cases hs : isSetterSkipWord t.val = true
+      · simp only [hs, if_true, Option.map_eq_none_iff] at h
+        exact tail h hs
+      · have hs' : isSetterSkipWord t.val = false := by simpa using hs
+        simp only [hs', Bool.false_eq_true, if_false] at h
+        split at h <;> cases h
+    | comment t =>
+      simp only [setTypeGo, Option.map_eq_none_iff] at h
+      exact tail h rfl
+    | value k t =>
+      simp only [setTypeGo, Option.map_eq_none_iff] at h
+      exact tail h rfl
+
 end CssVerif.Media
